@@ -55,7 +55,13 @@ def make_class(cid, shape, mode, creator_script):
     def note(self, token):
         with LOCK:
             facts["notes"][token] = self.serial
-    ns = {"__init__": __init__, "who": who, "note": api.oneway(note)}
+    def smeth():
+        return "static"
+
+    def cmeth(cls):
+        return "classmethod"
+    # (a static or class method of a registered class is still a call on "the object": the instance rules apply to it)
+    ns = {"__init__": __init__, "who": who, "note": api.oneway(note), "smeth": staticmethod(smeth), "cmeth": classmethod(cmeth)}
     if shape in ("len0", "len0+bool"):
         ns["__len__"] = lambda self: 0
     if shape in ("boolfalse", "len0+bool"):
@@ -87,6 +93,7 @@ def make_class(cid, shape, mode, creator_script):
 # H: histories
 # ------------------------------------------------------------------------------------------------
 step = st.one_of(st.tuples(st.just("call"), st.integers(0, 2)), st.tuples(st.just("call"), st.integers(0, 2)), st.tuples(st.just("oneway"), st.integers(0, 2)),
+                 st.tuples(st.sampled_from(["scall", "ccall"]), st.integers(0, 2)),
                  st.tuples(st.just("close"), st.integers(0, 2)), st.tuples(st.just("abort"), st.integers(0, 2)),
                  st.tuples(st.just("open"), st.integers(0, 2))).map(list)
 
@@ -224,6 +231,26 @@ def run_h(case, servertype, keep):
                         oneway_expect.append((token, model["single"] if mode == "single" else model["session"][i]))
                     continue
                 dirty.discard(i)
+                if op in ("scall", "ccall"):
+                    # a call that does not reveal which instance served it; the instance rules apply all the same
+                    try:
+                        got = ("ok", p.smeth() if op == "scall" else p.cmeth())
+                    except Exception as x:
+                        got = ("err", x)
+                    if expect_fail:
+                        if got[0] == "ok":
+                            viol("failed-creation-served", "%s: the creator failed/returned a wrong type but the call returned %r" % (label, got[1]))
+                        continue
+                    if got != ("ok", "static" if op == "scall" else "classmethod"):
+                        viol("call-failed", "%s gave %r" % (label, got[1]))
+                        break
+                    if need_creation:
+                        model["created"] += 1
+                        if mode == "single":
+                            model["single"] = ("pending", "n%d" % n)
+                        elif mode == "session":
+                            model["session"][i] = ("pending", "n%d" % n)
+                    continue
                 try:
                     got = ("ok", p.who())
                 except Exception as x:
@@ -427,7 +454,7 @@ def run_case(case, servertype=None, keep=False):
 def _h_nontrivial(case):
     calls = {}
     for op, i in case["steps"]:
-        if op in ("call", "oneway"):
+        if op in ("call", "oneway", "scall", "ccall"):
             calls[i] = calls.get(i, 0) + 1
     multi = len(calls) >= 2 and max(calls.values()) >= 2
     return multi or case["shape"] in ("len0", "boolfalse", "len0+bool") or bool(case["creator"] and any(a != "ok" for a in case["creator"]))
